@@ -12,8 +12,8 @@ CLAIMS = {
          "Sub-evaluations (varEvaler.eval, reference.eval/resolve, cfgPath.GetValue) are named by ghost functions of (expression or path string, configuration): assumed to be functions of these while one setting is read; the lexer/parser building the expression tree ($$ and $} escapes) and splice concatenation (bytes.Buffer) are not under contract; resolver callbacks are dynamic calls assumed not to touch library state.", "6/C02"),
  "C03": ("Bit-precise proof (64-bit vectors + IEEE-754 theory, loop-free so complete over the full domain) that the numeric conversion kernels return the exact value or an error: negative->unsigned, >MaxInt64->signed, NaN/out-of-range float->integer are errors, in-range results equal the mathematical value.",
          "Trusted: Go semantics of in-range float->int conversion (truncation), math.IsNaN contract, strconv for string sources; dispatch through reflect (doReifyPrimitive) is assumed, not proved.", "6/C03"),
- "C07": ("Proof of absence of run-time errors (index, slice, string index, nil dereference, type assertion, division, make, explicit panic) plus loop variants for the functions under contract: the flag-value scanners of parse/parse.go, the splice lexer and parseVarExp. Every obligation is generated from the SSA with zero annotation; preconditions are checked at every call site under contract.",
-         "Not decided: third-party decoders, goroutine leaks/channel protocol, reflect settability, stack depth; functions not listed in the evidence are not covered.", "6/C07"),
+ "C07": ("Proof of absence of run-time errors in two tiers. (a) Fully annotated: the flag-value scanners of parse/parse.go, the splice lexer and parseVarExp, idxField.SetValue - index, slice, string index, nil dereference, type assertion, division, make, explicit panic, loop variants, callee preconditions at every call site, and the allocation bound of one setter call. (b) Zero-annotation sweep over 268 further functions of all packages (every function whose obligations discharge without any contract): their own index / slice / string-index / type-assertion / division / make / nil-map / explicit-panic sites and the preconditions of the reflect functions they call (Type.Out/In, Value.Index: rte.extern), generated from the SSA, with interval invariants of range and counting loops inferred and proved.",
+         "Sweep functions: nil dereferences not claimed, callee preconditions assumed at their call sites; 13 functions are outside both tiers (normalize/normalizeValue/reifyInto/tryValidate type assertions on reflect results, cfgPath.SetValue, MustNewFrom and two panics by design, ...: see DESIGN.md section 12). Not decided: third-party decoders, goroutine leaks/channel protocol, reflect settability, stack depth, whole-program termination.", "6/C07"),
  "C08": ("Proof of the two safety halves: the set of references under evaluation is the fieldSet chain (recursive membership inChain proved for Has/Add/AddNew/newFieldSet); resolveRef reports a cyclic-reference error exactly when the path is already in the chain and registers it otherwise, without changing the scope pointer; reifyMap and cfgSub.reify restore opts.activeFields on every exit (deferred closure applied by contract at each return, through map-range and list loops). Termination is the stated meta-argument (finite set of paths, strictly growing chain).",
          "Not decided: termination itself; FlattenedKeys/CompareConfigs recursion; reifyStruct/doReifyPrimitive scoping; the chain is assumed acyclic; run-time errors of reifyMap/cfgSub.reify are not claimed (norte).", "6/C08"),
  "C10": ("Frame and freshness proofs for the array side of Merge: fields.append and the array strategies write only destination locations or fresh objects (frame obligation at every store and callee frame) and every stored element is a fresh copy.",
